@@ -152,7 +152,7 @@ type scenarioData struct {
 
 // histOp is one completed operation of an observed concurrent history (coq/Model/C17_Cache.v, record hop).
 type histOp struct {
-	Kind  uint64 `json:"kind"`  // 0 set (SetBlockRootToSlot / block event), 1 lookup (BlockRootToSlot), 2 clean
+	Kind  uint64 `json:"kind"`  // 0 set (SetBlockRootToSlot / block event), 1 lookup (BlockRootToSlot), 2 clean, 3 ExecutionChainHead (Key: height encoded in the hash returned, Val: height returned)
 	Key   uint64 `json:"key"`   // number of the root
 	Val   uint64 `json:"val"`   // set: slot; clean: minimum slot; lookup: the slot the node answers (if Fill)
 	Res   int64  `json:"res"`   // lookup: slot returned, -1 = error
@@ -393,6 +393,11 @@ func TestC17(t *testing.T) {
 func lostUpdates(h []histOp) string {
 	var sb strings.Builder
 	for _, l := range h {
+		if l.Kind == 3 && l.Key != l.Val {
+			fmt.Fprintf(&sb, "torn read: ExecutionChainHead returned the hash of execution block %d with height %d (stamps %d..%d): the two halves of no single head\n", l.Key, l.Val, l.Inv, l.Resp)
+		}
+	}
+	for _, l := range h {
 		if l.Kind != 1 || !(l.Asked || l.Res < 0) {
 			continue
 		}
@@ -415,11 +420,11 @@ func lostUpdates(h []histOp) string {
 				}
 			}
 			if !explained {
-				what := map[uint64]string{0: "SetBlockRootToSlot / block event", 1: "BlockRootToSlot"}[w.Kind]
-				fmt.Fprintf(&sb, "lost update: BlockRootToSlot(root %d) called at stamp %d did not find the root in the cache, although %s had put root %d -> slot %d there and returned at stamp %d, and no clean with a minimum slot above %d runs in between; cleans:", l.Key, l.Inv, what, w.Key, v, w.Resp, v)
+				what := map[uint64]string{0: "a set", 1: "an answered lookup"}[w.Kind]
+				fmt.Fprintf(&sb, "lost update: the lookup of key %d called at stamp %d did not find it in the store, although %s had put %d -> %d there and returned at stamp %d, and no clean with a minimum above %d runs in between; cleans:", l.Key, l.Inv, what, w.Key, v, w.Resp, v)
 				for _, c := range h {
 					if c.Kind == 2 && !(c.Resp < w.Inv) && !(l.Resp < c.Inv) {
-						fmt.Fprintf(&sb, " [stamps %d..%d, minimum slot %d]", c.Inv, c.Resp, c.Val)
+						fmt.Fprintf(&sb, " [stamps %d..%d, minimum %d]", c.Inv, c.Resp, c.Val)
 					}
 				}
 				sb.WriteString("\n")
